@@ -15,7 +15,7 @@ package interp
 //@   opt safety = off
 //@   opt ghost-calls = true
 //@   opt opaque-calls = *
-//@   opt preserve = F_interp_frame_deferred, F_interp_frame_id, F_interp_Interpreter_id, SE_Int
+//@   opt preserve = F_interp_frame_deferred, F_interp_frame_id, F_interp_Interpreter_id, SE_Int___reflect_Value, SE_Int_reflect_Value
 //@   requires f != nil
 //@   panics when true
 //@   exits all-deferred-run: callCount == len(f.deferred) && forall(k, 0, len(f.deferred), calledAt(k) == f.deferred[k][0])
